@@ -632,6 +632,9 @@ class ExpMat:
             return FlatCodes(self.n, self.D, lambda t, d: expo(rows(t), d))
         if attr == "copy":
             return ExpMat(self.n, self.D, self._row, Region("fresh"), self.dtype)
+        if attr == "astype" and len(args) == 1 and isinstance(args[0], V.BuiltinRef) and args[0].name == "int" and not kw:
+            # uint32 -> int64: every value representable, same rows
+            return ExpMat(self.n, self.D, self._row, Region("fresh"), dt_int)
         if attr == "tolist":
             return V.Seq(self.n, lambda t: MonoRow(self.row(t), self.D))
         raise U(f"exponents.{attr}", node)
@@ -898,7 +901,8 @@ class Poly:
         if attr == "ndim":
             return ndim(self.shape)
         if attr == "KEY_OFFSET":
-            return 59
+            from .codecmodel import key_offset_of
+            return key_offset_of(ex.mod.repo)
         if attr == "indeterminants":
             ind = Poly(ex.ctx, self.base + "_indet", names=self.names, region=Region("fresh", "indeterminants"))
             ind.indeterminants_of = self
@@ -1129,6 +1133,11 @@ class ValuesView:
         self.poly = poly
 
     def _term(self, ex, key, node):
+        from .mulmodel import RowKey, field_position
+        if isinstance(key, RowKey):
+            if getattr(ex, "fill_target", None) is not self.poly:
+                raise U("values[computed key] on another polynomial than the one being filled", node)
+            return field_position(ex, key, node)
         if not isinstance(key, KeyTok):
             raise U("values[...] with a non-key index", node)
         p = self.poly
